@@ -18,7 +18,7 @@ import (
 func init() {
 	core.Register(&core.Simple{
 		Id: "C04", Lvl: "exploration", Quick: 1500, Thorough: 60000, PerBatch: 750, Width: 32, Timeout: 900,
-		RuleText: "each case builds a generated account database (1-5 accounts, with/without guest, passwords 0..72 arbitrary bytes), logs two observers in, snapshots config dir + file root + chat/transfer tables, then lets a peer send generated handshake bytes, a first transaction with a (login,password) variant and 0-3 appended privileged requests; the reference predicate (valid handshake, account exists with empty login = guest, password equals current password; path-like or padded spellings of a login are not that login) decides whether the peer must be logged in; in 3 of 7 cases an administrator first renames or deletes an account or changes its password through the protocol, and the peer then presents the formerly valid credentials. distinct = (handshake class, credential class, appended request type, expected outcome); a race-build stress batch lets 60-120 peers fail to log in concurrently while three observers broadcast continuously and a hook delay stretches every registration. non-trivial = every case (each runs the real handleNewConnection)",
+		RuleText: "each case builds a generated account database (1-5 accounts, with/without guest, passwords 0..72 arbitrary bytes), logs two observers in, snapshots config dir + file root + chat/transfer tables, then lets a peer send generated handshake bytes, a first transaction with a (login,password) variant and 0-3 appended privileged requests; the reference predicate (valid handshake, account exists with empty login = guest, password equals current password; path-like or padded spellings of a login are not that login) decides whether the peer must be logged in; in 3 of 7 cases an administrator first renames or deletes an account, changes its password, or has a creation refused (login spelled so that it names an existing account's file) through the protocol, and the peer then presents the formerly valid / refused credentials. distinct = (handshake class, credential class, appended request type, expected outcome); a race-build stress batch lets 60-120 peers fail to log in concurrently while three observers broadcast continuously and a hook delay stretches every registration. non-trivial = every case (each runs the real handleNewConnection)",
 		Case:     runCase,
 		Extra: func(tier string, seed int64) []core.Batch {
 			n := 12
@@ -261,7 +261,7 @@ func runCase(c *core.Case) {
 	}
 	// the account database has a history: before the peer connects an administrator may have renamed an account,
 	// deleted one or changed a password — "existing account" and "current password" mean the state after that
-	history := core.Pick(r, []string{"", "", "", "rename", "delete", "password", "rename"})
+	history := core.Pick(r, []string{"", "", "", "rename", "delete", "password", "rename", "refused-create"})
 	var stale []account // credentials that were valid once and must be refused now
 	if history != "" && len(accs) > 3 {
 		k := 3 + r.Intn(len(accs)-3) // never the observers or guest
@@ -280,6 +280,14 @@ func runCase(c *core.Case) {
 			if rep, ok := obsA.Call(351, rc.F(105, rc.Obfuscate([]byte(old.login)))); ok && rep.Err == 0 {
 				accs = append(accs[:k:k], accs[k+1:]...)
 				stale = append(stale, old)
+			}
+		case "refused-create":
+			// an administrator tries to create an account under a spelling that names an existing account's file; the
+			// request is refused, so those credentials must not work afterwards either
+			alias := core.Pick(r, []string{"./" + old.login, old.login + "/", "x/../" + old.login, "/" + old.login})
+			pw := "refused-" + string(r.Printable(6))
+			if rep, ok := obsA.Call(350, rc.F(105, rc.Obfuscate([]byte(alias))), rc.FS(102, "Refused"), rc.F(106, rc.Obfuscate([]byte(pw))), rc.F(110, rc.Bitmap(2, 9))); ok && rep.Err != 0 {
+				stale = append(stale, account{alias, pw, nil})
 			}
 		case "password":
 			np := "changed-" + string(r.Printable(6))
